@@ -10,6 +10,7 @@ ValS = z3.DeclareSort('Val')        # defaults, annotation objects, argument val
 RefS = z3.DeclareSort('Ref')        # callables / identity-carrying external objects
 
 NONEVAL = z3.Const('NoneVal', ValS)  # the value ``None`` when used as a default
+EVALIN = z3.Function('evalin', ValS, RefS, ValS)      # value of an annotation expression in a function's globals
 
 
 class Infeasible(Exception):
